@@ -91,10 +91,21 @@ def gen_history(rng, length, opts=None):
         create("D")
     while len(ops) < length:
         w = rng.weighted([("create", 22), ("name", 9), ("del", 6), ("arr", 9), ("move", 10), ("rm_ws", 12),
-                          ("rm_parent", 10), ("sweep", 8), ("reopen", 7), ("reuse", 7)])
+                          ("rm_parent", 10), ("sweep", 8), ("reopen", 7), ("reuse", 7), ("dup", 4)])
         nonroot = [k for k in sh.live() if k != ("G", 0)]
         if w == "create":
             create()
+        elif w == "dup":
+            # a creation under the identifier of a LIVE entity of the same kind: the code refuses it (RuntimeError "already
+            # used"), the model answers Refused; neither may change anything (under the same parent or another one)
+            c = [k for k in nonroot if k not in sh.tainted]
+            if c:
+                k = rng.choice(c)
+                ps = sh.live("O") if k[0] == "D" else sh.live("G")
+                ps = [q for q in ps if q not in sh.tainted and q not in sh.subtree(k)]
+                p = sh.par[k] if rng.chance(55) or not ps else rng.choice(ps)
+                ops.append({"op": "create", "kind": k[0], "n": k[1], "parent": list(p), "name": newtok(),
+                            "arr": newtok() if k[0] != "G" else 0, "dup": True})
         elif w == "reuse":
             create(reuse=True)
         elif w == "name" and nonroot:
@@ -232,12 +243,20 @@ class Impl:
                 if p is None:
                     return "refused"
                 name = f"n{op['name']}"
-                if op["kind"] == "G":
-                    ContainerGroup.create(ws, uid=_uuid(op["n"]), name=name, parent=p)
-                elif op["kind"] == "O":
-                    Points.create(ws, uid=_uuid(op["n"]), name=name, parent=p, vertices=_arr_vertices(op["arr"]))
-                else:
-                    p.add_data({name: {"values": _arr_values(op["arr"]), "uid": _uuid(op["n"])}})
+                try:
+                    if op["kind"] == "G":
+                        ContainerGroup.create(ws, uid=_uuid(op["n"]), name=name, parent=p)
+                    elif op["kind"] == "O":
+                        Points.create(ws, uid=_uuid(op["n"]), name=name, parent=p, vertices=_arr_vertices(op["arr"]))
+                    else:
+                        p.add_data({name: {"values": _arr_values(op["arr"]), "uid": _uuid(op["n"])}})
+                except RuntimeError as e:
+                    if op.get("dup") and "already used" in str(e):
+                        del p, e
+                        gc.collect()
+                        return "refused"   # Workspace.register refused the duplicate identifier
+                    raise
+                del p
             elif o in ("set_name", "set_del", "set_arr"):
                 e = self.find(op["e"])
                 if e is None:
@@ -657,8 +676,29 @@ def gen_history_x(rng, length):
                     lst.remove(k)
         if o in ("reopen", "sweep") or not rng.chance(45):
             continue
-        w = rng.weighted([("pg_add", 40), ("pg_remove", 10), ("copy", 38), ("move_data", 12)])
+        w = rng.weighted([("pg_add", 40), ("pg_remove", 10), ("copy", 38), ("move_data", 12), ("pg_chain", 8)])
         cands = [k for k in objs if live_data.get(k)]
+        if w == "pg_chain":
+            # several property groups of one object that share a data X, the earlier ones holding X alone (a group that
+            # becomes empty deletes itself while the object walks its groups), then X leaves the object by one of the routes
+            if cands:
+                ob = rng.choice(sorted(cands))
+                x = rng.choice(live_data[ob])
+                others = [d for d in live_data[ob] if d != x]
+                for j in range(rng.range(2, 3)):
+                    pgn[0] += 1
+                    ms = [x] if j == 0 or not others or rng.chance(40) else [x] + rng.sample(others, rng.range(1, min(2, len(others))))
+                    ops.append({"op": "pg_add", "o": list(ob), "name": 500 + pgn[0], "members": [list(m) for m in ms], "g": None})
+                route = rng.weighted([("rm_ws", 35), ("rm_parent", 35), ("move", 30)])
+                if route == "move" and len(objs) >= 2:
+                    q = rng.choice(sorted(k for k in objs if k != ob))
+                    live_data[ob].remove(x)
+                    live_data.setdefault(q, []).append(x)
+                    ops.append({"op": "move", "e": list(x), "q": list(q)})
+                elif route != "move":
+                    live_data[ob].remove(x)
+                    ops.append({"op": route, "e": list(x)})
+            continue
         if w == "move_data":
             if cands and len(objs) >= 2:
                 ob = rng.choice(sorted(cands))
@@ -673,6 +713,9 @@ def gen_history_x(rng, length):
             ms = rng.sample(live_data[ob], rng.range(1, min(3, len(live_data[ob]))))
             if rng.chance(15):
                 ms = ms + [["D", 9999]]          # not a child: skipped by the API
+            foreign = sorted(d for k, lst in live_data.items() if k != ob for d in lst)
+            if foreign and rng.chance(25):
+                ms = ms + [rng.choice(foreign)]  # a live data of ANOTHER object, given by identifier: skipped as well
             if rng.chance(10):
                 ms = [["D", 9998]]               # nothing valid: the API raises
             pgn[0] = pgn[0] + 1 if rng.chance(60) else max(1, pgn[0])   # new name, or an existing one again
